@@ -830,6 +830,23 @@ pub fn find_chrom<'a>(v: &'a Vec<ChromInfo>, chrom: &Str) -> (r: Option<&'a Chro
     }
     None
 }
+/// `V.iter().find(|v| v.name != chrom)`: the FIRST entry whose name DIFFERS (what `find` with that predicate returns)
+pub fn find_chrom_ne<'a>(v: &'a Vec<ChromInfo>, chrom: &Str) -> (r: Option<&'a ChromInfo>)
+    ensures
+        r matches Some(c) ==> exists|k: int| 0 <= k < v@.len() && v@[k] == *c && v@[k].name@ != chrom@
+            && forall|j: int| 0 <= j < k ==> (#[trigger] v@[j]).name@ == chrom@,
+        r is None ==> forall|j: int| 0 <= j < v@.len() ==> (#[trigger] v@[j]).name@ == chrom@,
+{
+    let mut i: usize = 0;
+    while i < v.len()
+        invariant i <= v.len(), forall|j: int| 0 <= j < i ==> (#[trigger] v@[j]).name@ == chrom@,
+        decreases v.len() - i,
+    {
+        if !str_eq(&v[i].name, chrom) { return Some(&v[i]); }
+        i = i + 1;
+    }
+    None
+}
 /// file j has a chromosome of that name / the length it records for it
 pub open spec fn has(files: Seq<BigWigRead>, j: int, name: Seq<char>) -> bool { lookup_from(chroms_of(files[j].info), name, 0) is Some }
 pub open spec fn size_in(files: Seq<BigWigRead>, j: int, name: Seq<char>) -> u32 { lookup_from(chroms_of(files[j].info), name, 0)->Some_0.length }
